@@ -259,6 +259,11 @@ def replay_units(behs, tmpdir, seed):
         # cell (a, w) holds 10^(p0 + a) in unit u0
         s.flux = np.array([[10.0 ** (p0 + a) for _ in range(nw)] for a in range(na)]) * u.Unit(UNIT_STR[u0])
         s.error = s.flux * 0.1
+        if bi % 3 == 1:
+            # the error column may carry another unit of the same family than the flux column (SED.write stores each with its own)
+            twin = {'mJy': 'Jy', 'Jy': 'mJy', 'erg/cm2/s': 'W/m2', 'W/m2': 'erg/cm2/s'}.get(u0)
+            if twin:
+                s.error = s.error.to(u.Unit(UNIT_STR[twin]))
         cur = s
         path = None
         order = None
